@@ -146,9 +146,9 @@ def rxcLoop (mp duration : Nat) : Nat → DevRun → M (Step Unit)
     | .frame snr v => do
       let (o, m) ← macHandleRx r.m v mp snr true
       let r := { r with m := m }
-      match o with
-      | none => pure (.macErr r)       -- `handle_rxc` returned Err(NotJoined)
-      | some o => rxcLoop mp duration fuel (r.deliver (some o))
+      -- `handle_rxc` returned Err(NotJoined) (`none`): while joining there is no session the frame
+      -- could belong to; the front-end takes it as `NoUpdate` and goes on listening
+      rxcLoop mp duration fuel (r.deliver o)
     -- the timer future is first polled once reception is pending (or has failed: the error is
     -- swallowed, the code awaits the timer and reports a timeout)
     | .err => pure (.cont () (r.log (.at duration)))
